@@ -14,6 +14,7 @@ import (
 	"github.com/irai/packet/fastlog"
 
 	"verif/harness/c01"
+	"verif/harness/c07"
 	"verif/harness/c15"
 	"verif/harness/core"
 )
@@ -22,6 +23,7 @@ var runners = map[string]core.Runner{
 	"C01": c01.Runner01,
 	"C02": c01.Runner02,
 	"C16": c01.Runner16,
+	"C07": c07.Runner,
 	"C15": c15.Runner,
 }
 
